@@ -10,7 +10,7 @@ Small == VersOf({<<1>>, <<1, 0>>}, {<<0>>, <<0, 1>>, <<1>>}, 2, {0, 1},
                 {"alpha", "p"}, {<<>>, <<1>>}, 1, {<<>>, <<0>>, <<1>>})
 Base == VersOf({<<1>>, <<2>>, <<1, 0>>}, {<<0>>, <<1>>, <<0, 1>>, <<1, 0>>, <<0, 1, 0>>}, 2, {0, 1, 2},
                {"alpha", "rc", "p"}, {<<>>, <<0>>, <<1>>}, 2, {<<>>, <<0>>, <<1>>, <<0, 1>>})
-Tiny == VersOf({<<1>>, <<1, 0>>}, {<<0>>, <<0, 1>>}, 2, {0, 1}, {"alpha", "p"}, {<<>>, <<1>>}, 1, {<<>>, <<1>>})
+Tiny == VersOf({<<1>>, <<1, 0>>}, {<<0>>, <<0, 1>>}, 2, {0, 1}, {"alpha", "p"}, {<<1>>}, 1, {<<>>, <<1>>})
 GVers == TLCEval(IF Size = 1 THEN {v \in Tiny : Weight(v) <= 1}
                  ELSE IF Size = 2 THEN {v \in Base : Weight(v) <= 1}
                  ELSE {v \in Small : Weight(v) <= 2})
